@@ -228,3 +228,30 @@ def win_cell(data, kernel, y, x, a, b, rows, cols, krows, kcols):
 
 def focal_window(data, kernel, y, x, rows, cols, krows, kcols):
     return array2(lambda a, b: win_cell(data, kernel, y, x, a, b, rows, cols, krows, kcols), krows, kcols)
+
+
+# ------------------------------------------------------------------ C19 distance metrics and kernels
+def spec_euclid(x1, x2, y1, y2):
+    return sqrt((x1 - x2) * (x1 - x2) + (y1 - y2) * (y1 - y2))
+
+
+def spec_manhattan(x1, x2, y1, y2):
+    return abs(x1 - x2) + abs(y1 - y2)
+
+
+def in_ellipse(i, j, half_w, half_h):
+    # offset (j - half_w, i - half_h) from the centre satisfies (x/a)^2 + (y/b)^2 <= 1 with a = half_w, b = half_h
+    return ((j - half_w) * half_h) * ((j - half_w) * half_h) + ((i - half_h) * half_w) * ((i - half_h) * half_w) \
+        <= (half_w * half_h) * (half_w * half_h)
+
+
+def spec_great_circle(x1, x2, y1, y2, radius):
+    # haversine formula on a sphere of the given radius; longitudes x, latitudes y in degrees
+    lat1 = y1 * (pi / 180)
+    lon1 = x1 * (pi / 180)
+    lat2 = y2 * (pi / 180)
+    lon2 = x2 * (pi / 180)
+    dlon = lon2 - lon1
+    dlat = lat2 - lat1
+    a = sin(dlat / 2.0) * sin(dlat / 2.0) + cos(lat1) * cos(lat2) * (sin(dlon / 2.0) * sin(dlon / 2.0))
+    return radius * 2 * asin(sqrt(a))
